@@ -137,7 +137,9 @@ where
             let (tx, rx) = tokio::sync::mpsc::unbounded_channel::<StreamEv>();
             let producer = tokio::task::spawn_local(async move {
                 for (i, ev) in stream.into_iter().enumerate() {
-                    tx.send(ev).expect("manager alive");
+                    if tx.send(ev).is_err() {
+                        break; // the manager returned early: observed through the books
+                    }
                     if i % 2 == 0 {
                         tokio::task::yield_now().await;
                     }
